@@ -150,25 +150,6 @@ def run_case(env, op, clock_value):
     return judge(env, op, clock_value, exc)
 
 
-def expected_id(clock_value):
-    """The id a request built at this clock value carries: the clock's second
-    as long as that is an Integer32; beyond (2038 and later) whatever the
-    library's one id source derives from the clock - that it fits Integer32 is
-    the reference decoder's business, that responses are matched against the
-    same value is C07's."""
-    if int(clock_value) < 2**31:
-        return int(clock_value)
-    from puresnmp.util import get_request_id
-
-    saved = (CLOCK.now, CLOCK.reads, CLOCK.on_read, CLOCK.tick_per_read)
-    CLOCK.on_read, CLOCK.tick_per_read = None, 0.0
-    CLOCK.now = float(clock_value)
-    try:
-        return get_request_id()
-    finally:
-        CLOCK.now, CLOCK.reads, CLOCK.on_read, CLOCK.tick_per_read = saved
-
-
 def judge(env, op, clock_value, exc):
     out = []
     facts = {"version": env.version, "op": op, "clock": clock_value, "exception": ops.exc_sig(exc)}
@@ -209,8 +190,8 @@ def judge(env, op, clock_value, exc):
                 bad("msgflags-differ-from-level-plus-reportable", got=m["flags"], expected=level | 4)
             if m["sec_model"] != 3 or m["max_size"] < 484:
                 bad("bad-header-data", sec_model=m["sec_model"], max_size=m["max_size"])
-            if m["msg_id"] != expected_id(clock_value):
-                bad("msgID-differs-from-the-request-id-the-clock-produced", got=m["msg_id"])
+            if not 0 <= m["msg_id"] <= 2**31 - 1:
+                bad("msgID-outside-0..2^31-1", got=m["msg_id"])
             sp = m["usm"]
             if sp["engine_id"] != env.agent.engine_id or sp["user"] != env.user.name or sp["boots"] != env.agent.boots:
                 bad("wrong-usm-parameters", got=(sp["engine_id"], sp["user"], sp["boots"]))
@@ -224,8 +205,10 @@ def judge(env, op, clock_value, exc):
                 bad("wrong-community", got=msg["community"])
             pdu = msg["pdu"]
         data_requests += 1
-        if pdu["request_id"] != expected_id(clock_value):
-            bad("request-id-differs-from-the-value-the-clock-produced", got=pdu["request_id"])
+        # Which id a request carries is the client's own business (today the
+        # clock's second, tomorrow a counter or a random number): the property
+        # only asks for an Integer32 (the strict decoder above) that the client
+        # recognises when a conformant agent echoes it (below; C07 in depth).
         if data_requests == 1:
             if pdu["tag"] != tag:
                 bad("wrong-pdu-type", got=pdu["tag"], expected=tag)
@@ -240,6 +223,8 @@ def judge(env, op, clock_value, exc):
                 bad("continuation-request-binds-values")
     if data_requests == 0:
         bad("no-data-request-sent", message=str(exc)[:200])
+    if type(exc).__name__ == "InvalidResponseId":
+        bad("echo-of-the-emitted-request-id-refused", message=str(exc)[:200])
     return out, len(calls)
 
 
